@@ -64,6 +64,14 @@ func (c *checker) client(e *sim.Ev) {
 			c.cov("stranded-on-crashed-incarnation")
 			return // a crashed process takes its callers with it
 		}
+		if e.Y == "Leader" {
+			if b := c.brokenVoterOf(cl.inst.s); b != "" {
+				// the leader cannot commit anything: a voter it depends on holds a user restore that
+				// never got replicated and accepts nothing any more (known finding S12)
+				c.violate("C17", "stranded-on-leader-behind-unreplicated-user-restore", e.Seq, "%s issued on %s at t=%dms had not resolved after %v of virtual time: the leader needs voter %s, which is stuck behind its own unreplicated user restore", cl.op, cl.inst, cl.invT/1e6, sim.CallWatchdog, b)
+				return
+			}
+		}
 		c.violate("C17", "stranded-"+cl.op+"-"+where, e.Seq, "%s issued on %s at t=%dms had not resolved after %v of virtual time (server state %s)", cl.op, cl.inst, cl.invT/1e6, sim.CallWatchdog, e.Y)
 	}
 }
@@ -290,4 +298,35 @@ func (c *checker) finalStates() []sim.FSMState {
 		}
 	}
 	return out
+}
+
+// brokenVoterOf: a voter (other than the leader itself) of the leader's latest durable configuration
+// that performed a user restore the cluster never adopted, when the leader cannot reach a quorum
+// without it.
+func (c *checker) brokenVoterOf(leader string) string {
+	s := c.srv[leader]
+	if s == nil {
+		return ""
+	}
+	_, lc := s.disk.latestLogCfg()
+	if lc == "" {
+		if sn := s.disk.newest(); sn != nil {
+			lc = sn.cfg
+		}
+	}
+	voters := ParseCfg(lc).Voters()
+	broken, bad := "", 0
+	for _, v := range voters {
+		for _, u := range c.userRestores {
+			if u.key.s == v && v != leader && !c.restoreAdopted(u) {
+				broken = v
+				bad++
+				break
+			}
+		}
+	}
+	if broken != "" && len(voters)-bad < len(voters)/2+1 {
+		return broken
+	}
+	return ""
 }
